@@ -8,49 +8,39 @@
    Vocabulary: a promise cell  Cell kind key st  lives at index q of  heap (ct (gl s));  st is
    Unset | SetV v | Broken;  (kind, key) is what getFuture was called with.  pend / used are the four maps.
    pcs: P_lock o = waits for promiseLock;  P_call o = setDelayedValue(const X&) about to copy (owns the lock);
-   P_ful v k key q r d c0 = fulfillAllPromises about to copy for promise q (owns the lock; c0 = container
+   P_ful v k key q r c0 = fulfillAllPromises about to copy for promise q (owns the lock; c0 = container
    when it took the lock);  P_unlock out = body over, owns the lock, will end with out = ORet rv | OExn | OFault.
-   torn (gl s) (ghost) = some fulfillAllPromises was ended by a throwing copy after it had already satisfied
-   a promise;  calm s = no fulfillAllPromises is in progress.
 
-   PROVISO.  With copies that can throw the class has a defect (do_never_twice_refuted): a copy that
-   throws in the middle of fulfillAllPromises leaves moved-from promises in the pending maps.  Everything
-   that speaks about the container's consistency is therefore stated for torn = false, which holds for
-   ever when no copy throws (do_nothrow_never_torn), and is not affected by throwing copies in
-   setDelayedValue (do_set_exn_keeps_pending) or by a fulfillAllPromises whose first copy throws. *)
+   Copies of X may throw (any throw plan pl): nothing below needs a proviso.  The header before repair
+   b8719b7 (model: tstep_gen true) violates do_never_twice: see do_never_twice_unfixed_refuted. *)
 From Coq Require Import List Arith ZArith Lia Bool.
 Import ListNotations.
 From GV Require Import Sched Events DelayedObjectsModel DelayedObjectsProofs.
 Local Open Scope Z_scope.
 
 (* ---------- do_never_twice ---------- *)
-(* The unrestricted statement
-     forall ns pl progs s, R ns pl progs s -> faulted (gl s) = false
-   is FALSE (next theorem).  Proved: as long as no fulfillAllPromises was torn, no set_value ever hits a
-   promise that cannot be set (no std::future_error), and outside a running fulfillAllPromises: pending maps
-   hold exactly the Unset promises, used maps only satisfied ones, keys are unique, a promise is Broken
-   only by a later request of the same key (record CInv). *)
-Theorem do_never_twice : forall ns pl progs s, R ns pl progs s -> torn (gl s) = false ->
-  faulted (gl s) = false /\ (calm s -> CInv (ct (gl s))).
+(* Under every throw plan: no set_value ever hits a promise that cannot be set (no std::future_error), and
+   at every moment - also in the middle of fulfillAllPromises and after a copy threw - pending maps hold
+   exactly the Unset promises, used maps only satisfied ones, keys are unique, a promise is Broken only by a
+   later request of the same key (record CInv). *)
+Theorem do_never_twice : forall ns pl progs s, R ns pl progs s -> faulted (gl s) = false /\ CInv (ct (gl s)).
 Proof. exact never_twice. Qed.
 
-(* witness: getFuture(1); getFuture(2); fulfillAllPromises(5000) whose 2nd copy throws; setDelayedValue(1, 77):
-   the last call ends with std::future_error; key 1 is in the pending AND in the used map; the future of
-   key 2 is not ready; and ~DelayedObjects would throw from set_value (= std::terminate) *)
-Theorem do_never_twice_refuted :
-  R 2 [1] bad_progs bad_state /\ torn (gl bad_state) = true /\ faulted (gl bad_state) = true /\
-  all_fin glob loc fin bad_state = true /\ mtx (gl bad_state) = None /\
-  destroy (ct (gl bad_state)) = None /\
-  ahas 1 (pend (ct (gl bad_state)) false) = true /\ ahas 1 (used (ct (gl bad_state)) false) = true /\
-  fut_get (heap (ct (gl bad_state))) (Some 0%nat) = 5000 /\ fut_get (heap (ct (gl bad_state))) (Some 1%nat) = C_NOTREADY.
-Proof. exact never_twice_refuted. Qed.
-
-(* copies that never throw: the proviso holds for ever *)
-Theorem do_nothrow_never_torn : forall ns progs s, R ns [] progs s -> torn (gl s) = false.
-Proof. exact nothrow_never_torn. Qed.
+(* the header BEFORE repair b8719b7 (entries not erased in the loop, clear() after the loops), same model with
+   unfixed = true: getFuture(1); getFuture(2); fulfillAllPromises(5000) whose 2nd copy throws;
+   setDelayedValue(1, 77): the last call ends with std::future_error; key 1 is in the pending AND in the used
+   map; the future of key 2 is not ready; and ~DelayedObjects would throw from set_value (std::terminate) *)
+Theorem do_never_twice_unfixed_refuted :
+  faulted (gl bad_state_unfixed) = true /\
+  all_fin glob loc fin bad_state_unfixed = true /\ mtx (gl bad_state_unfixed) = None /\
+  destroy (ct (gl bad_state_unfixed)) = None /\
+  ahas 1 (pend (ct (gl bad_state_unfixed)) false) = true /\ ahas 1 (used (ct (gl bad_state_unfixed)) false) = true /\
+  fut_get (heap (ct (gl bad_state_unfixed))) (Some 0%nat) = 5000 /\
+  fut_get (heap (ct (gl bad_state_unfixed))) (Some 1%nat) = C_NOTREADY.
+Proof. exact never_twice_unfixed_refuted. Qed.
 
 Theorem do_no_fault_event : forall ns pl progs s t c l g' l' es,
-  R ns pl progs s -> torn (gl s) = false -> nth_error (thr s) t = Some l ->
+  R ns pl progs s -> nth_error (thr s) t = Some l ->
   tstep t c (gl s) l = Some (g', l', es) -> ~ In fault_ev es.
 Proof. exact no_fault_event. Qed.
 
@@ -62,21 +52,21 @@ Proof. exact pid_one_map. Qed.
 
 (* ---------- do_set_exn_keeps_pending ---------- *)
 (* a throwing copy in setDelayedValue(key, const X&) changes nothing: the container is the same, the key
-   is still pending with its promise Unset, no fault, not torn ... *)
+   is still pending with its promise Unset, no fault ... *)
 Theorem do_set_exn_keeps_pending : forall ns pl progs s t c l g' l' es o,
-  R ns pl progs s -> torn (gl s) = false -> nth_error (thr s) t = Some l -> at_ l = P_call o ->
+  R ns pl progs s -> nth_error (thr s) t = Some l -> at_ l = P_call o ->
   throws (gl s) = true -> tstep t c (gl s) l = Some (g', l', es) ->
-  ct g' = ct (gl s) /\ at_ l' = P_unlock OExn /\ torn g' = false /\ faulted g' = false /\
+  ct g' = ct (gl s) /\ at_ l' = P_unlock OExn /\ faulted g' = false /\
   exists k key v q, o = SetValue false k key v /\ afind key (pend (ct g') k) = Some q /\
                     nth_error (heap (ct g')) q = Some (Cell k key Unset).
 Proof. exact set_exn_keeps_pending. Qed.
 (* ... and the call ends by releasing the mutex (events: K_UNLOCK, then K_CATCH for OExn / K_RET rv for ORet rv).
    The promise can then still be satisfied by do_set_wins_*, do_fulfill_step, do_default_at_destruction. *)
 Theorem do_section_exit : forall t c g l g' l' es out, tstep t c g l = Some (g', l', es) -> at_ l = P_unlock out ->
-  es = unlock_evs out /\ at_ l' = Idle /\ ct g' = ct g /\ mtx g' = None /\ torn g' = torn g /\ faulted g' = faulted g.
+  es = unlock_evs out /\ at_ l' = Idle /\ ct g' = ct g /\ mtx g' = None /\ faulted g' = faulted g.
 Proof. exact unlock_step. Qed.
 (* whenever a thread waits at the copy inside setDelayedValue, its key is pending and it owns the lock *)
-Theorem do_at_copy_pending : forall ns pl progs s t l o, R ns pl progs s -> torn (gl s) = false ->
+Theorem do_at_copy_pending : forall ns pl progs s t l o, R ns pl progs s ->
   nth_error (thr s) t = Some l -> at_ l = P_call o ->
   exists k key v q, o = SetValue false k key v /\ afind key (pend (ct (gl s)) k) = Some q /\
                     nth_error (heap (ct (gl s))) q = Some (Cell k key Unset) /\ mtx (gl s) = Some t.
@@ -86,7 +76,7 @@ Proof. exact at_copy_pending. Qed.
 (* (1) setDelayedValue(key, v) that finds the key pending satisfies that key's promise - and no other -
        with v: the X&& overload in its lock step, the const X& overload in the step of its copy *)
 Theorem do_set_wins_move : forall ns pl progs s t c l g' l' es k key v q,
-  R ns pl progs s -> torn (gl s) = false -> nth_error (thr s) t = Some l -> at_ l = P_lock (SetValue true k key v) ->
+  R ns pl progs s -> nth_error (thr s) t = Some l -> at_ l = P_lock (SetValue true k key v) ->
   tstep t c (gl s) l = Some (g', l', es) -> afind key (pend (ct (gl s)) k) = Some q ->
   nth_error (heap (ct (gl s))) q = Some (Cell k key Unset) /\
   nth_error (heap (ct g')) q = Some (Cell k key (SetV v)) /\
@@ -94,7 +84,7 @@ Theorem do_set_wins_move : forall ns pl progs s t c l g' l' es k key v q,
   at_ l' = P_unlock (ORet 0).
 Proof. exact set_wins_move. Qed.
 Theorem do_set_wins_copy : forall ns pl progs s t c l g' l' es k key v q,
-  R ns pl progs s -> torn (gl s) = false -> nth_error (thr s) t = Some l -> at_ l = P_call (SetValue false k key v) ->
+  R ns pl progs s -> nth_error (thr s) t = Some l -> at_ l = P_call (SetValue false k key v) ->
   throws (gl s) = false ->
   tstep t c (gl s) l = Some (g', l', es) -> afind key (pend (ct (gl s)) k) = Some q ->
   nth_error (heap (ct (gl s))) q = Some (Cell k key Unset) /\
@@ -103,34 +93,32 @@ Theorem do_set_wins_copy : forall ns pl progs s t c l g' l' es k key v q,
   at_ l' = P_unlock (ORet 0).
 Proof. exact set_wins_copy. Qed.
 
-(* (2) fulfillAllPromises(v): every non-throwing copy satisfies the promise at the iterator with v, no other
-       promise becomes satisfied, no cell goes backwards ... *)
-Theorem do_fulfill_step : forall ns pl progs s t c l g' l' es v k key q r d c0,
-  R ns pl progs s -> torn (gl s) = false -> nth_error (thr s) t = Some l -> at_ l = P_ful v k key q r d c0 ->
+(* (2) fulfillAllPromises(v): every non-throwing copy is exactly the body of setDelayedValue for the key at the
+       iterator: that promise - and no other - gets v, the key moves from the pending to the used map.  A copy
+       that throws ends the call (S_ful_throw: container unchanged): the keys served so far are completed,
+       the others still pending, and do_never_twice holds on. *)
+Theorem do_fulfill_step : forall ns pl progs s t c l g' l' es v k key q r c0,
+  R ns pl progs s -> nth_error (thr s) t = Some l -> at_ l = P_ful v k key q r c0 ->
   throws (gl s) = false -> tstep t c (gl s) l = Some (g', l', es) ->
-  is_unset (heap (ct (gl s))) q = true /\ fut_get (heap (ct g')) (Some q) = v /\
-  hle (heap (ct (gl s))) (heap (ct g')) /\
-  (forall i k0 key0 w, i <> q -> nth_error (heap (ct g')) i = Some (Cell k0 key0 (SetV w)) ->
-     nth_error (heap (ct (gl s))) i = Some (Cell k0 key0 (SetV w))) /\
-  (is_ful (at_ l') = true \/ at_ l' = P_unlock (ORet 0)).
+  apply (SetValue true k key v) (ct (gl s)) = (ct g', 0, false) /\
+  nth_error (heap (ct (gl s))) q = Some (Cell k key Unset) /\
+  nth_error (heap (ct g')) q = Some (Cell k key (SetV v)) /\
+  (forall q', q' <> q -> nth_error (heap (ct g')) q' = nth_error (heap (ct (gl s))) q') /\
+  (is_ful (at_ l') = true \/ (at_ l' = P_unlock (ORet 0) /\ pend (ct g') false = [] /\ pend (ct g') true = [])).
 Proof. exact fulfill_step. Qed.
-(* ... and when it gets through both loops the container is the sequential body applied to the container c0
-   it found: every promise Unset in c0 holds v, every other cell is as in c0, the pending maps are empty *)
-Theorem do_fulfill_completes : forall ns pl progs s t c l g' l' es v k key q r d c0,
-  R ns pl progs s -> torn (gl s) = false -> nth_error (thr s) t = Some l -> at_ l = P_ful v k key q r d c0 ->
+(* ... and when it gets through both loops: both pending maps are empty, no promise at all is unsatisfied,
+   and every promise that was unsatisfied when the lock was taken (container c0) holds v *)
+Theorem do_fulfill_completes : forall ns pl progs s t c l g' l' es v k key q r c0,
+  R ns pl progs s -> nth_error (thr s) t = Some l -> at_ l = P_ful v k key q r c0 ->
   tstep t c (gl s) l = Some (g', l', es) -> at_ l' = P_unlock (ORet 0) ->
-  CInv c0 /\ apply (FulfillAll v) c0 = (ct g', 0, false) /\ replay (hist (gl s)) cont0 = Some c0 /\
-  hist g' = hist (gl s) ++ [(t, FulfillAll v, ORet 0)].
+  pend (ct g') false = [] /\ pend (ct g') true = [] /\
+  (forall i x, nth_error (heap (ct g')) i = Some x -> cst x <> Unset) /\
+  (forall i ki keyi, nth_error (heap c0) i = Some (Cell ki keyi Unset) ->
+     nth_error (heap (ct g')) i = Some (Cell ki keyi (SetV v))).
 Proof. exact fulfill_completes. Qed.
-Theorem do_fulfill_all_seq : forall c v, CInv c ->
-  exists c', apply (FulfillAll v) c = (c', 0, false) /\ length (heap c') = length (heap c) /\
-    (forall k, pend c' k = []) /\
-    (forall q k key st, nth_error (heap c) q = Some (Cell k key st) ->
-       nth_error (heap c') q = Some (Cell k key (settle v st))).
-Proof. exact fulfill_all_seq. Qed.
 
 (* (3) ~DelayedObjects throws nothing and gives X{} = 0 to whatever is still Unset *)
-Theorem do_default_at_destruction : forall ns pl progs s, R ns pl progs s -> torn (gl s) = false -> calm s ->
+Theorem do_default_at_destruction : forall ns pl progs s, R ns pl progs s ->
   exists h', destroy (ct (gl s)) = Some h' /\ length h' = length (heap (ct (gl s))) /\
     (forall q k key st, nth_error (heap (ct (gl s))) q = Some (Cell k key st) ->
        nth_error h' q = Some (Cell k key (settle 0 st))).
@@ -150,14 +138,14 @@ Proof. exact stable_get. Qed.
 (* (5) a key requested once: its promise is never broken, and after destruction it holds a value:
        the one it already had (by (1), (2), (4)), else 0 *)
 Theorem do_fulfilled_once : forall ns pl progs s h' q k key st,
-  R ns pl progs s -> torn (gl s) = false -> calm s -> destroy (ct (gl s)) = Some h' ->
+  R ns pl progs s -> destroy (ct (gl s)) = Some h' ->
   nth_error (heap (ct (gl s))) q = Some (Cell k key st) -> requested_once (heap (ct (gl s))) q k key ->
   st <> Broken /\ exists v, nth_error h' q = Some (Cell k key (SetV v)) /\ (st = SetV v \/ (st = Unset /\ v = 0)).
 Proof. exact fulfilled_once. Qed.
 
 (* (6) no value out of thin air: a satisfied promise holds a value some caller passed to setDelayedValue for
        its own key, or to fulfillAllPromises *)
-Theorem do_value_provenance : forall ns pl progs s q k key v, R ns pl progs s -> torn (gl s) = false ->
+Theorem do_value_provenance : forall ns pl progs s q k key v, R ns pl progs s ->
   nth_error (heap (ct (gl s))) q = Some (Cell k key (SetV v)) ->
   exists t, (exists mv, In (t, SetValue mv k key v) (began (gl s))) \/ In (t, FulfillAll v) (began (gl s)).
 Proof. exact provenance. Qed.
@@ -168,7 +156,7 @@ Theorem do_futures_valid : forall ns pl progs s u l i p, R ns pl progs s ->
 Proof. exact slots_valid. Qed.
 
 Theorem do_broken_only_by_rerequest : forall ns pl progs s q k key,
-  R ns pl progs s -> torn (gl s) = false -> calm s -> nth_error (heap (ct (gl s))) q = Some (Cell k key Broken) ->
+  R ns pl progs s -> nth_error (heap (ct (gl s))) q = Some (Cell k key Broken) ->
   exists q' st, (q < q')%nat /\ nth_error (heap (ct (gl s))) q' = Some (Cell k key st).
 Proof. exact broken_only_by_rerequest. Qed.
 
@@ -188,16 +176,17 @@ Theorem do_queries : forall o c c' rv flt k key, CInv c -> apply o c = (c', rv, 
   abs c' k key = abs_step o k key (abs c k key) /\ rv = abs_ret o c.
 Proof. exact apply_abs. Qed.
 (* ... and every critical section that completes IS its sequential body, applied to the container it found,
-   returning the value the call returns (do_fulfill_completes is the third case) *)
+   returning the value the call returns; fulfillAllPromises is a sequence of setDelayedValue bodies
+   (do_fulfill_step) inside one critical section *)
 Theorem do_section_lock : forall ns pl progs s t c l g' l' es o rv,
-  R ns pl progs s -> torn (gl s) = false -> nth_error (thr s) t = Some l -> at_ l = P_lock o ->
+  R ns pl progs s -> nth_error (thr s) t = Some l -> at_ l = P_lock o -> (forall v, o <> FulfillAll v) ->
   tstep t c (gl s) l = Some (g', l', es) -> at_ l' = P_unlock (ORet rv) ->
-  CInv (ct (gl s)) /\ apply o (ct (gl s)) = (ct g', rv, false) /\ hist g' = hist (gl s) ++ [(t, o, ORet rv)].
+  apply o (ct (gl s)) = (ct g', rv, false) /\ hist g' = hist (gl s) ++ [(t, o, ORet rv)].
 Proof. exact section_lock. Qed.
 Theorem do_section_copy : forall ns pl progs s t c l g' l' es o,
-  R ns pl progs s -> torn (gl s) = false -> nth_error (thr s) t = Some l -> at_ l = P_call o ->
+  R ns pl progs s -> nth_error (thr s) t = Some l -> at_ l = P_call o ->
   throws (gl s) = false -> tstep t c (gl s) l = Some (g', l', es) ->
-  exists rv, at_ l' = P_unlock (ORet rv) /\ CInv (ct (gl s)) /\ apply o (ct (gl s)) = (ct g', rv, false) /\
+  exists rv, at_ l' = P_unlock (ORet rv) /\ apply o (ct (gl s)) = (ct g', rv, false) /\
              hist g' = hist (gl s) ++ [(t, o, ORet rv)].
 Proof. exact section_copy. Qed.
 
@@ -213,19 +202,21 @@ Theorem do_life_both_only_rerequested : forall c k key, CInv c -> abs c k key = 
 Proof. exact both_only_rerequested. Qed.
 
 (* ---------- do_linearizable / atomic sections ---------- *)
-(* whenever no fulfillAllPromises is in progress, the container is what the sequential bodies of the
-   completed sections give, run one after the other in the order in which they ended (sections ended by a
-   throwing copy: no effect), every logged return value being the one the sequential body returns *)
-Theorem do_linearizable : forall ns pl progs s, R ns pl progs s -> torn (gl s) = false -> calm s ->
-  replay (hist (gl s)) cont0 = Some (ct (gl s)).
+(* at every moment the container is what the sequential bodies logged so far give, run one after the other
+   (a section ended by a throwing copy: no effect of its own; fulfillAllPromises: one setDelayedValue body
+   per promise it satisfied), every logged return value being the one the sequential body returns *)
+Theorem do_linearizable : forall ns pl progs s, R ns pl progs s -> replay (hist (gl s)) cont0 = Some (ct (gl s)).
 Proof. exact linearizable. Qed.
+(* `began` gets a call at its lock step; `hist` is extended only by the thread that is acquiring or owns the lock,
+   with entries of its own: nothing interleaves with the bodies of one critical section *)
 Theorem do_lin_point : forall t c g l g' l' es, tstep t c g l = Some (g', l', es) ->
   match at_ l with
   | P_lock o => began g' = began g ++ [(t, o)] /\ mtx g = None /\ mtx g' = Some t
   | _ => began g' = began g
   end /\
   (hist g' = hist g \/
-   exists o out, hist g' = hist g ++ [(t, o, out)] /\ at_ l' = P_unlock out /\ (is_lock (at_ l) = true \/ holds (at_ l) = true)).
+   (exists x, hist g' = hist g ++ x /\ (forall e, In e x -> fst (fst e) = t) /\
+              holds (at_ l') = true /\ (is_lock (at_ l) = true \/ holds (at_ l) = true))).
 Proof. exact lin_point. Qed.
 (* the container changes only in steps of a thread that is acquiring or owns promiseLock *)
 Theorem do_atomic_sections : forall t c g l g' l' es,
@@ -239,7 +230,7 @@ Theorem do_section_owner : forall ns pl progs s u, R ns pl progs s ->
 Proof. exact in_section_owns. Qed.
 
 (* ---------- do_never_hangs ---------- *)
-Theorem do_never_hangs : forall ns pl progs s h', R ns pl progs s -> torn (gl s) = false -> calm s ->
+Theorem do_never_hangs : forall ns pl progs s h', R ns pl progs s ->
   destroy (ct (gl s)) = Some h' ->
   (forall q x, nth_error h' q = Some x -> cst x <> Unset) /\
   (forall u l i p, nth_error (thr s) u = Some l -> nth_error (slots l) i = Some (Some p) ->
@@ -276,7 +267,7 @@ Definition ex_progs : list (list op) :=
 Definition ex_s1 := runx 2 [0] ex_progs (t0 6 ++ t1 2).
 Example ex_copy_will_throw :
   exists l, nth_error (thr ex_s1) 1 = Some l /\ at_ l = P_call (SetValue false false 1 111) /\
-            throws (gl ex_s1) = true /\ torn (gl ex_s1) = false /\ mtx (gl ex_s1) = Some 1%nat /\
+            throws (gl ex_s1) = true /\ mtx (gl ex_s1) = Some 1%nat /\
             exists r, tstep 1 0 (gl ex_s1) l = Some r.
 Proof. vm_compute. eexists; repeat split. eexists; reflexivity. Qed.
 (* after the throw and the unlock: key still pending, mutex free; the second set is at its copy, which succeeds *)
@@ -297,35 +288,34 @@ Proof. vm_compute. eexists; repeat split. Qed.
 (* inside fulfillAllPromises, at the copy for the string key: do_fulfill_step / do_fulfill_completes *)
 Definition ex_s4 := runx 2 [0] ex_progs (t0 6 ++ t1 13).
 Example ex_in_fulfill :
-  exists l c0, nth_error (thr ex_s4) 1 = Some l /\ at_ l = P_ful 5113 true 1 1%nat [] 0 c0 /\
+  exists l c0, nth_error (thr ex_s4) 1 = Some l /\ at_ l = P_ful 5113 true 1 1%nat [] c0 /\
                throws (gl ex_s4) = false /\ mtx (gl ex_s4) = Some 1%nat /\
                fut_get (heap (ct (gl ex_s4))) (Some 0%nat) = 112 /\ fut_get (heap (ct (gl ex_s4))) (Some 1%nat) = C_NOTREADY.
 Proof. vm_compute. eexists _, _; repeat split. Qed.
 Example ex_fulfill_done :
   let s := runx 2 [0] ex_progs (t0 6 ++ t1 14) in
   pcof (thr s) 1 = P_unlock (ORet 0) /\ fut_get (heap (ct (gl s))) (Some 1%nat) = 5113 /\
-  pend (ct (gl s)) true = [] /\ torn (gl s) = false.
+  pend (ct (gl s)) true = [] /\ faulted (gl s) = false.
 Proof. vm_compute. repeat split. Qed.
 
-(* a fulfillAllPromises whose FIRST copy throws: nothing happened, not torn *)
+(* a fulfillAllPromises whose FIRST copy throws: nothing happened *)
 Example ex_fulfill_first_copy_throws :
   let s := runx 1 [0] [[GetFuture false 1 0; GetFuture true 2 0; FulfillAll 9]] (t0 10) in
-  torn (gl s) = false /\ faulted (gl s) = false /\ calls (gl s) = 1 /\ mtx (gl s) = None /\
+  faulted (gl s) = false /\ calls (gl s) = 1 /\ mtx (gl s) = None /\
   length (pend (ct (gl s)) false) = 1%nat /\ length (pend (ct (gl s)) true) = 1%nat /\
   destroy (ct (gl s)) = Some [Cell false 1 (SetV 0); Cell true 2 (SetV 0)].
 Proof. vm_compute. repeat split. Qed.
 
-(* destruction with an outstanding future: requested once, still Unset, gets 0; calm and not torn *)
+(* destruction with an outstanding future: requested once, still Unset, gets 0 *)
 Definition ex_s5 := runx 1 [] [[GetFuture true 7 0]] (t0 3).
 Example ex_default_at_destruction :
   nth_error (heap (ct (gl ex_s5))) 0 = Some (Cell true 7 Unset) /\
   requested_once (heap (ct (gl ex_s5))) 0 true 7 /\
   destroy (ct (gl ex_s5)) = Some [Cell true 7 (SetV 0)] /\
-  all_fin glob loc fin ex_s5 = true /\ torn (gl ex_s5) = false /\ calm ex_s5.
+  all_fin glob loc fin ex_s5 = true.
 Proof.
   vm_compute. repeat split.
-  - intros q' st' H. destruct q' as [|q']; [reflexivity|]. destruct q'; discriminate.
-  - intros u. destruct u as [|u]; [reflexivity|]. destruct u; reflexivity.
+  intros q' st' H. destruct q' as [|q']; [reflexivity|]. destruct q'; discriminate.
 Qed.
 
 (* re-request of a pending key breaks the first promise (modelled; outside "requested once") *)
@@ -341,3 +331,14 @@ Example ex_blocked_on_mutex :
   exists l, nth_error (thr s) 1 = Some l /\ fin l = false /\ tstep 1 0 (gl s) l = None /\ mtx (gl s) = Some 0%nat /\
             is_ful (pcof (thr s) 0) = true.
 Proof. vm_compute. eexists; repeat split. Qed.
+
+(* the program of do_never_twice_unfixed_refuted on the repaired header: the second copy throws, key 1 is
+   completed (and only in the used map), key 2 is still pending; the later set of key 1 is a no-op, nothing
+   faults, and destruction serves key 2 with the default value *)
+Example ex_repaired_interrupted_fulfill :
+  let s := runx 2 [1] bad_progs bad_sched in
+  faulted (gl s) = false /\ all_fin glob loc fin s = true /\
+  abs (ct (gl s)) false 1 = (false, true) /\ abs (ct (gl s)) false 2 = (true, false) /\
+  fut_get (heap (ct (gl s))) (Some 0%nat) = 5000 /\ fut_get (heap (ct (gl s))) (Some 1%nat) = C_NOTREADY /\
+  destroy (ct (gl s)) = Some [Cell false 1 (SetV 5000); Cell false 2 (SetV 0)].
+Proof. vm_compute. repeat split. Qed.
